@@ -284,4 +284,74 @@ theorem keyString_neg (u : Uni) (k : Key) (h : k.keycode < 0) :
   have e2 : ¬ k.keycode = 8 := by omega
   simp only [e1, e2, h, if_true, if_false]
 
+/-! ## Two events `String()` and `Matches` cannot tell apart, for an arbitrary `unicode` oracle -/
+
+/-- The legacy byte carries the key's own character as text, the kitty report carries no text; the
+    key is unmodified; no lower-case rune has the key's character as its upper case (else rule 6 of
+    `Matches` — "Shift + lower-case binding matches the upper-case text" — fires for the legacy event
+    only).  Go's tables violate the last clause e.g. for 'ß': `IsLower('ß')` and `ToUpper('ß') = 'ß'`. -/
+def OwnCharText (u : Uni) (k1 k2 : Key) : Prop :=
+  k1.mods = 0 ∧ k1.text = [k1.keycode] ∧ k2.text = [] ∧ validRune k1.keycode = true ∧ k1.keycode ≠ 0xFFFD ∧
+  ∀ r, u.isLower r = true → u.toUpper r ≠ k1.keycode
+
+theorem sameForMatching_sound_uni (u : Uni) (k1 k2 : Key)
+    (hk : k1.keycode = k2.keycode) (hs : k1.shifted = k2.shifted) (hb : k1.base = k2.base)
+    (hm : k1.mods = k2.mods) (he : k1.event = k2.event)
+    (ht : k1.text = k2.text ∨ OwnCharText u k1 k2) :
+    keyString u k1 = keyString u k2 ∧ ∀ b m, «matches» u k1 b m = «matches» u k2 b m := by
+  refine ⟨keyString_congr _ _ _ hk hm he (by
+    rcases ht with ht | ⟨hm0, _⟩
+    · exact Or.inl ht
+    · exact Or.inr hm0), ?_⟩
+  intro b m
+  rcases ht with ht | ⟨hm0, ht1, ht2, hv, hfffd, hup⟩
+  · have : k1 = k2 := by
+      cases k1; cases k2; simp_all
+    rw [this]
+  · rw [Bool.eq_iff_iff, matches_iff, matches_iff]
+    unfold matchSpec
+    rw [← hk, ← hs, ← hb, ← hm, ht1, ht2]
+    have f2 : ∀ key, ([k1.keycode] : Str) = strOfRune key → k1.keycode = key := by
+      intro key h
+      unfold strOfRune at h
+      split at h
+      · simpa using h
+      · simp at h; exact absurd h hfffd
+    have g : ∀ key, ([] : Str) ≠ strOfRune key := by
+      intro key; unfold strOfRune; split <;> simp
+    have f6 : ∀ key, u.isLower key = true → ([k1.keycode] : Str) ≠ strOfRune (u.toUpper key) := by
+      intro key hl h
+      exact hup key hl (f2 _ h).symm
+    constructor
+    · rintro (h | ⟨h, hM⟩ | h | h | h | ⟨_, hl, h, _⟩)
+      · exact Or.inl h
+      · exact Or.inl ⟨f2 _ h, hM⟩
+      · exact Or.inr (Or.inr (Or.inl h))
+      · exact Or.inr (Or.inr (Or.inr (Or.inl h)))
+      · exact Or.inr (Or.inr (Or.inr (Or.inr (Or.inl h))))
+      · exact absurd h (f6 _ hl)
+    · rintro (h | ⟨h, _⟩ | h | h | h | ⟨_, _, h, _⟩)
+      · exact Or.inl h
+      · exact absurd h (g _)
+      · exact Or.inr (Or.inr (Or.inl h))
+      · exact Or.inr (Or.inr (Or.inr (Or.inl h)))
+      · exact Or.inr (Or.inr (Or.inr (Or.inr (Or.inl h))))
+      · exact absurd h (g _)
+
+/-- The ASCII criterion `sameForMatching` (Lemmas/KeyCross.lean) is an instance. -/
+theorem sameForMatching_is_instance (k1 k2 : Key) (h : sameForMatching k1 k2 = true) :
+    k1.keycode = k2.keycode ∧ k1.shifted = k2.shifted ∧ k1.base = k2.base ∧ k1.mods = k2.mods ∧
+    k1.event = k2.event ∧ (k1.text = k2.text ∨ OwnCharText asciiUni k1 k2) := by
+  simp only [sameForMatching, Bool.and_eq_true, Bool.or_eq_true, beq_iff_eq, Bool.not_eq_true',
+    Bool.and_eq_false_imp, decide_eq_true_eq, decide_eq_false_iff_not] at h
+  obtain ⟨⟨⟨⟨⟨hk, hs⟩, hb⟩, hm⟩, he⟩, ht⟩ := h
+  refine ⟨hk, hs, hb, hm, he, ?_⟩
+  rcases ht with ht | ⟨⟨⟨⟨⟨hm0, ht1⟩, ht2⟩, hv⟩, hfffd⟩, hup⟩
+  · exact Or.inl ht
+  · refine Or.inr ⟨hm0, ht1, ht2, hv, by simpa using hfffd, ?_⟩
+    intro r hl
+    simp only [asciiUni, decide_eq_true_eq] at hl
+    simp only [asciiUni, hl, and_self, if_true]
+    omega
+
 end VaxisModel.Lemmas.KeyUni
